@@ -52,3 +52,57 @@ pub proof fn lemma_jtag_from_step(input: Seq<u8>, q: int)
         if p2 >= input.len() { assert(jstr(input, p2) is None); assert(jtag_from(input, p2) is None); }
     }
 }
+// the tags from the tag whose body starts at p (cursor just after that tag's "[" and whitespace):
+// (offset just past the closing bracket of the outer array, values)
+#[verifier::opaque]
+pub open spec fn jtags_from(input: Seq<u8>, p: int) -> Option<(int, Seq<Seq<Seq<u8>>>)>
+    decreases input.len() - p
+{
+    match jtag(input, p) {
+        None => None,
+        Some((e, t)) => {
+            let e2 = ws_end(input, e);
+            if e2 < 0 || e2 >= input.len() { None }
+            else if input[e2] == 0x2C {
+                let b = ws_end(input, e2 + 1);
+                if b < 0 || b >= input.len() || input[b] != 0x5B { None }
+                else {
+                    let p2 = ws_end(input, b + 1);
+                    if p2 <= p || p2 > input.len() { None }
+                    else { match jtags_from(input, p2) { None => None, Some((f, ts)) => Some((f, seq![t] + ts)) } }
+                }
+            } else if input[e2] == 0x5D { Some((e2 + 1, seq![t])) }
+            else { None }
+        }
+    }
+}
+// the "tags" array, cursor at its "["
+pub open spec fn jtags(input: Seq<u8>, p: int) -> Option<(int, Seq<Seq<Seq<u8>>>)> {
+    if p < 0 || p >= input.len() || input[p] != 0x5B { None }
+    else {
+        let a = ws_end(input, p + 1);
+        if a < 0 || a >= input.len() { None }
+        else if input[a] == 0x5D { Some((a + 1, Seq::<Seq<Seq<u8>>>::empty())) }
+        else if input[a] == 0x5B { jtags_from(input, ws_end(input, a + 1)) }
+        else { None }
+    }
+}
+pub proof fn lemma_jtags_from_step(input: Seq<u8>, p: int)
+    requires jtags_from(input, p) is Some, 0 <= p
+    ensures jtag(input, p) is Some,
+        ({
+            let e = jtag(input, p)->Some_0.0;
+            let t = jtag(input, p)->Some_0.1;
+            let e2 = ws_end(input, e);
+            let b = ws_end(input, e2 + 1);
+            let p2 = ws_end(input, b + 1);
+            &&& 0 <= e2 < input.len()
+            &&& (input[e2] == 0x2C || input[e2] == 0x5D)
+            &&& input[e2] == 0x2C ==> (b < input.len() && input[b] == 0x5B && jtags_from(input, p2) is Some
+                    && jtags_from(input, p) == Some((jtags_from(input, p2)->Some_0.0, seq![t] + jtags_from(input, p2)->Some_0.1)))
+            &&& input[e2] == 0x5D ==> jtags_from(input, p) == Some((e2 + 1, seq![t]))
+        }),
+        jtags_from(input, p)->Some_0.1.len() >= 1,
+{
+    reveal(jtags_from);
+}
